@@ -739,10 +739,26 @@ class PostInit(Harness):
         import passlib.utils.handlers as uh
         from passlib.context import CryptContext, _CryptConfig
 
-        return [uh.GenericHandler.hash, uh.GenericHandler.verify, uh.GenericHandler.__init__, uh.HasSalt.__init__,
-                uh.HasRounds.__init__, uh.HasManyBackends._calc_checksum, CryptContext.hash, CryptContext.verify,
-                _CryptConfig.get_record, _CryptConfig.identify_record, uh.GenericHandler.identify,
-                uh.MinimalHandler.using, uh.HasSalt.using, uh.HasRounds.using]
+        import types
+
+        import passlib.hash as PH
+
+        cs = [uh.GenericHandler.hash, uh.GenericHandler.verify, uh.GenericHandler.__init__, uh.HasSalt.__init__,
+              uh.HasRounds.__init__, uh.HasManyBackends._calc_checksum, CryptContext.hash, CryptContext.verify,
+              _CryptConfig.get_record, _CryptConfig.identify_record, uh.GenericHandler.identify,
+              uh.MinimalHandler.using, uh.HasSalt.using, uh.HasRounds.using]
+        if any(op.startswith("static:") for op in self.ops):
+            # hashers without settings (the whole state of a call is the password): every method of the generic bases
+            # and of the hasher itself, so that an object shared between two calls gets a schedule point in between
+            owners = [uh.GenericHandler, uh.StaticHandler] + [getattr(PH, op.split(":")[1]) for op in self.ops if op.startswith("static:")]
+            for cls in owners:
+                for klass in (cls.__mro__ if cls not in (uh.GenericHandler, uh.StaticHandler) else (cls,)):
+                    if klass.__module__.startswith("passlib"):
+                        for v in vars(klass).values():
+                            f = getattr(v, "__func__", v)
+                            if isinstance(f, types.FunctionType) and f not in cs:
+                                cs.append(f)
+        return cs
 
     def fresh(self):
         from passlib.context import CryptContext
@@ -768,6 +784,12 @@ class PostInit(Harness):
             return lambda: ctx.verify(PW, K["sha256_crypt"])
         if op == "using_hash":
             return lambda: _hash_obs(H, H.using(salt_size=4).hash(PW))
+        if op.startswith("static:"):
+            import passlib.hash as PH
+
+            _k, hname, pw = op.split(":")
+            S = getattr(PH, hname)
+            return lambda: S.hash("password-of-" + pw)  # (no salt: the hash itself is the observation)
         raise KeyError(op)
 
     def post(self, st):
@@ -1176,6 +1198,9 @@ def harness_specs(quick):
     add("post_init", ("hash", "verify"), 1 if quick else 2)
     add("post_init", ("ctx_hash", "ctx_verify"), 1 if quick else 2)
     add("post_init", ("using_hash", "verify_bad"), 1 if quick else 2)
+    add("post_init", ("static:nthash:alice", "static:nthash:bob"), 1 if quick else 2)
+    add("post_init", ("static:mysql41:alice", "static:mysql41:bob"), 1)
+    add("post_init", ("static:hex_sha1:alice", "static:ldap_md5:bob"), 1)
     for hn in ("md5_crypt", "sha256_crypt"):
         add(f"backend_{hn}", ("hash", "verify"), b2)
         add(f"backend_{hn}", ("verify", "has_backend"), b2)
